@@ -319,7 +319,7 @@ func ruleRetryBound(r *core.Reporter) {
 		if !okBound {
 			continue
 		}
-		body := ir.Pt{B: ii.If.Block().Succs[ii.EdgeWhen(true)], I: 0}
+		body := ir.EdgePt(ii.If.Block(), ii.EdgeWhen(true))
 		rs := ir.Reach([]ir.Pt{body}, ir.Opts{Stop: func(x ssa.Instruction) bool { return x == ssa.Instruction(ii.If) }})
 		if rs.Reached[do] && rs.Stopped[ii.If] {
 			iic := ii
@@ -566,7 +566,7 @@ func ruleHops(r *core.Reporter) {
 			for _, pol := range []bool{true, false} {
 				if ii.Atom.States(pol, token.GEQ, hp, "config.Get().MaxHops") {
 					// on that edge, NewItem must be unreachable before the loop continues
-					start := ir.Pt{B: ii.If.Block().Succs[ii.EdgeWhen(pol)], I: 0}
+					start := ir.EdgePt(ii.If.Block(), ii.EdgeWhen(pol))
 					l, okl := loopAround(pi, outItem)
 					if okl {
 						rs := ir.Reach([]ir.Pt{start}, ir.Opts{Stop: func(x ssa.Instruction) bool { return x == ssa.Instruction(l.If) }})
